@@ -43,6 +43,7 @@ def r4_member_indexing(run, tree):
     run.rule("C06.R4", "member indexing: Vector component-uniform, Array index passed to the buffer; units and names kept",
              "D7 fold + sibling agreement", "", floor=3)
     cf.check_vector_unary_and_maps(run, tree)
+    cf.check_vector_component_reassigned(run, tree)
     from . import array_folds as af
     af.check_index_gate_fold(run, tree)
 
